@@ -91,6 +91,10 @@ where
     fn deserialize_sk(bytes: &[u8]) -> Result<Self::Sk, InternalError> {
         SecretKey::<Self>::from_slice(bytes)
             .map(|secret_key| *secret_key.to_nonzero_scalar())
-            .map_err(|_| InternalError::PointError)
+            .ok()
+            // `from_slice` zero-pads shorter inputs: only accept the canonical encoding, i.e. what
+            // `serialize_sk` produces
+            .filter(|sk| Self::serialize_sk(*sk).as_slice() == bytes)
+            .ok_or(InternalError::PointError)
     }
 }
